@@ -539,6 +539,7 @@ def next_statement(
         column = alt_column = first  # (CPython uses that column for both of its measures)
 
     if state.pos == state.max:
+        state.lnum += 1  # a last line of blanks without a line end: the end marker comes after it, not in front of it
         return False  # break parent loop
 
     if state.line[state.pos] in "#\n" or state.line[state.pos :] in ("\r\n", "\r"):  # skip comments or blank lines
@@ -643,7 +644,9 @@ def next_psuedo_matches(state: TokenizerState) -> TokenInfo | None:
         elif token in ")]}":
             if state.in_braces() and state.at_parenlev():
                 state.pop_mode((state.lnum, end))
-            state.parenlev -= 1
+            # (an unmatched closer is the parser's to refuse; a negative level would take every later line for the
+            # inside of a bracket - no NEWLINE, INDENT or DEDENT any more - and for a new statement at the same time)
+            state.parenlev = max(0, state.parenlev - 1)
         elif token[0] == ":" and token in (":", ":=") and state.in_braces() and state.at_parenlev():
             # at the level of the field itself a colon starts the format spec, also the one of ':=' ('{x:=^10}')
             token, end = ":", start + 1
